@@ -85,6 +85,8 @@ pub(crate) fn div_rem_highest_word(
     let mut q = if lhs_top < *rhs_top {
         fast_div_rhs_top.div_rem_3by2(lhs2, lhs01).0
     } else {
+        #[cfg(dashu_verif)]
+        crate::verif_probe::hit(6);
         // In this case MAX is accurate (r is already overflown).
         Word::MAX
     };
